@@ -1,21 +1,33 @@
 //! Verification shim: sequential, heap-free executable specification of the subset of
 //! dashmap::{DashMap, DashSet} used by open-coroutine-core (at most MAXE live entries).
-use std::cell::UnsafeCell;
-use std::ops::{Deref, DerefMut};
+//!
+//! Contract modelled:
+//!  * map semantics of insert / get / get_mut / remove / contains_key / is_empty / iteration;
+//!  * the LOCKING precondition of the real crate: `insert`, `remove`, `get_mut` take a write lock on the key's
+//!    shard, `get` / `contains_key` / iteration take a read lock; calling a write operation on a key while a
+//!    `Ref`, `RefMut` or iterator item INTO THE SAME SHARD is alive on this thread deadlocks ("may deadlock if
+//!    called when holding any sort of reference into the map"). An iterator item's key is by construction in
+//!    the shard the iterator holds. The shim has one shard; it counts live references and reports a write
+//!    while one is alive as a violated dependency contract (`SHIM-CONTRACT:` assertions are attributed to the
+//!    calling crate function by the driver).
+use std::cell::{Cell, UnsafeCell};
 pub const MAXE: usize = 3;
-pub struct DashMap<K, V> { pub slots: UnsafeCell<[Option<(K, V)>; MAXE]> }
+pub struct DashMap<K, V> { pub slots: UnsafeCell<[Option<(K, V)>; MAXE]>, pub live_refs: Cell<usize> }
 unsafe impl<K: Send, V: Send> Send for DashMap<K, V> {}
 unsafe impl<K: Send, V: Send> Sync for DashMap<K, V> {}
-impl<K, V> Default for DashMap<K, V> { fn default() -> Self { DashMap { slots: UnsafeCell::new([None, None, None]) } } }
+impl<K, V> Default for DashMap<K, V> { fn default() -> Self { DashMap { slots: UnsafeCell::new([None, None, None]), live_refs: Cell::new(0) } } }
 impl<K, V> std::fmt::Debug for DashMap<K, V> { fn fmt(&self, f: &mut std::fmt::Formatter<'_>) -> std::fmt::Result { f.write_str("DashMap") } }
 pub mod mapref {
     pub mod one {
-        pub struct Ref<'a, K, V> { pub(crate) e: &'a (K, V) }
+        use std::cell::Cell;
+        pub struct Ref<'a, K, V> { pub(crate) e: &'a (K, V), pub(crate) live: &'a Cell<usize> }
         impl<'a, K, V> Ref<'a, K, V> { pub fn key(&self) -> &K { &self.e.0 } pub fn value(&self) -> &V { &self.e.1 } }
         impl<'a, K, V> std::ops::Deref for Ref<'a, K, V> { type Target = V; fn deref(&self) -> &V { &self.e.1 } }
-        pub struct RefMut<'a, K, V> { pub(crate) e: &'a mut (K, V) }
+        impl<'a, K, V> Drop for Ref<'a, K, V> { fn drop(&mut self) { self.live.set(self.live.get() - 1); } }
+        pub struct RefMut<'a, K, V> { pub(crate) e: &'a mut (K, V), pub(crate) live: &'a Cell<usize> }
         impl<'a, K, V> std::ops::Deref for RefMut<'a, K, V> { type Target = V; fn deref(&self) -> &V { &self.e.1 } }
         impl<'a, K, V> std::ops::DerefMut for RefMut<'a, K, V> { fn deref_mut(&mut self) -> &mut V { &mut self.e.1 } }
+        impl<'a, K, V> Drop for RefMut<'a, K, V> { fn drop(&mut self) { self.live.set(self.live.get() - 1); } }
     }
 }
 use mapref::one::{Ref, RefMut};
@@ -28,21 +40,33 @@ impl<K: Eq, V> DashMap<K, V> {
         while i < MAXE { if let Some((k, _)) = &s[i] { if k.borrow() == key { return i; } } i += 1; }
         MAXE
     }
+    fn write_lock(&self) {
+        #[cfg(kani)]
+        kani::assert(self.live_refs.get() == 0, "SHIM-CONTRACT: dashmap write operation while a reference into the map is alive (deadlock in the real crate)");
+        #[cfg(not(kani))]
+        assert!(self.live_refs.get() == 0, "SHIM-CONTRACT: dashmap write operation while a reference into the map is alive (deadlock in the real crate)");
+    }
     pub fn insert(&self, key: K, value: V) -> Option<V> {
+        self.write_lock();
         let i = self.find(&key); let s = self.raw();
         if i < MAXE { let old = s[i].take(); s[i] = Some((key, value)); return old.map(|e| e.1); }
         let mut j = 0; while j < MAXE { if s[j].is_none() { s[j] = Some((key, value)); return None; } j += 1; }
         panic!("shim bound: DashMap holds at most MAXE entries")
     }
     pub fn get<Q: ?Sized>(&self, key: &Q) -> Option<Ref<'_, K, V>> where K: std::borrow::Borrow<Q>, Q: Eq {
-        let i = self.find(key); if i < MAXE { self.raw()[i].as_ref().map(|e| Ref { e }) } else { None }
+        let i = self.find(key);
+        if i < MAXE { self.raw()[i].as_ref().map(|e| { self.live_refs.set(self.live_refs.get() + 1); Ref { e, live: &self.live_refs } }) } else { None }
     }
     pub fn get_mut<Q: ?Sized>(&self, key: &Q) -> Option<RefMut<'_, K, V>> where K: std::borrow::Borrow<Q>, Q: Eq {
-        let i = self.find(key); if i < MAXE { self.raw()[i].as_mut().map(|e| RefMut { e }) } else { None }
+        self.write_lock();
+        let i = self.find(key);
+        if i < MAXE { self.raw()[i].as_mut().map(|e| { self.live_refs.set(self.live_refs.get() + 1); RefMut { e, live: &self.live_refs } }) } else { None }
     }
     pub fn remove<Q: ?Sized>(&self, key: &Q) -> Option<(K, V)> where K: std::borrow::Borrow<Q>, Q: Eq {
+        self.write_lock();
         let i = self.find(key); if i < MAXE { self.raw()[i].take() } else { None }
     }
+    pub fn iter(&self) -> Iter<'_, K, V> { Iter { m: self, i: 0, locked: false } }
     pub fn contains_key<Q: ?Sized>(&self, key: &Q) -> bool where K: std::borrow::Borrow<Q>, Q: Eq { self.find(key) < MAXE }
     pub fn is_empty(&self) -> bool { let s = self.raw(); let mut i = 0; while i < MAXE { if s[i].is_some() { return false; } i += 1; } true }
 }
@@ -56,13 +80,36 @@ impl<K: Eq> DashSet<K> {
     pub fn remove<Q: ?Sized>(&self, key: &Q) -> Option<K> where K: std::borrow::Borrow<Q>, Q: Eq { self.m.remove(key).map(|e| e.0) }
     pub fn is_empty(&self) -> bool { self.m.is_empty() }
 }
-pub struct Iter<'a, K, V> { m: &'a DashMap<K, V>, i: usize }
+/// Borrowing iterator: holds the (single) shard's read lock from the first item until it is dropped.
+pub struct Iter<'a, K, V> { m: &'a DashMap<K, V>, i: usize, locked: bool }
 impl<'a, K, V> Iterator for Iter<'a, K, V> {
     type Item = Ref<'a, K, V>;
     fn next(&mut self) -> Option<Self::Item> {
         let s = unsafe { &*self.m.slots.get() };
-        while self.i < MAXE { let j = self.i; self.i += 1; if let Some(e) = &s[j] { return Some(Ref { e }); } }
+        while self.i < MAXE {
+            let j = self.i; self.i += 1;
+            if let Some(e) = &s[j] {
+                if !self.locked { self.locked = true; self.m.live_refs.set(self.m.live_refs.get() + 1); }
+                self.m.live_refs.set(self.m.live_refs.get() + 1);
+                return Some(Ref { e, live: &self.m.live_refs });
+            }
+        }
+        if self.locked { self.locked = false; self.m.live_refs.set(self.m.live_refs.get() - 1); }
         None
     }
 }
-impl<'a, K: Eq, V> IntoIterator for &'a DashMap<K, V> { type Item = Ref<'a, K, V>; type IntoIter = Iter<'a, K, V>; fn into_iter(self) -> Iter<'a, K, V> { Iter { m: self, i: 0 } } }
+impl<'a, K, V> Drop for Iter<'a, K, V> { fn drop(&mut self) { if self.locked { self.m.live_refs.set(self.m.live_refs.get() - 1); } } }
+impl<'a, K: Eq, V> IntoIterator for &'a DashMap<K, V> { type Item = Ref<'a, K, V>; type IntoIter = Iter<'a, K, V>; fn into_iter(self) -> Iter<'a, K, V> { Iter { m: self, i: 0, locked: false } } }
+pub struct OwningIter<K, V> { slots: [Option<(K, V)>; MAXE], i: usize }
+impl<K, V> Iterator for OwningIter<K, V> {
+    type Item = (K, V);
+    fn next(&mut self) -> Option<(K, V)> {
+        while self.i < MAXE { let j = self.i; self.i += 1; if let Some(e) = self.slots[j].take() { return Some(e); } }
+        None
+    }
+}
+impl<K: Eq, V> IntoIterator for DashMap<K, V> {
+    type Item = (K, V);
+    type IntoIter = OwningIter<K, V>;
+    fn into_iter(self) -> OwningIter<K, V> { OwningIter { slots: self.slots.into_inner(), i: 0 } }
+}
